@@ -336,12 +336,38 @@ fn run_collections(prop: &'static str, seed: u64, iters: usize) {
     let mut rng = Rng(seed.wrapping_mul(0x9E3779B97F4A7C15) | 1);
     for it in 0..iters {
         let kind = rng.below(4);
-        let cap = 1 + rng.below(3);
-        let mut coll = match kind {
-            0 => Coll::Fub(FuturesUnorderedBounded::new(cap)),
-            1 => Coll::Fu(FuturesUnordered::with_capacity(cap)),
-            2 => Coll::Fob(FuturesOrderedBounded::new(cap)),
-            _ => Coll::Fo(FuturesOrdered::with_capacity(cap)),
+        let mut cap = 1 + rng.below(3);
+        let mut children: Vec<St> = vec![];
+        let mut model: VecDeque<usize> = VecDeque::new();
+        let mut pushes = 0usize;
+        let mut hist: Vec<String> = vec![];
+        // every third history starts from collect() over an iterator with an inexact size hint (from_iter / Extend paths)
+        let collected = if rng.below(3) == 0 { 1 + rng.below(4) } else { 0 };
+        let mut coll = if collected > 0 {
+            let mut futs = vec![];
+            for id in 0..collected {
+                let st: St = Rc::new(ChildSt::default());
+                if rng.below(3) == 0 { st.ready.set(true); }
+                children.push(st.clone());
+                model.push_back(id);
+                futs.push(Fut::new(id, st));
+            }
+            pushes += collected;
+            hist.push(format!("collect({collected} futures through .filter(): inexact size hint)"));
+            let it = futs.into_iter().filter(|_| true);
+            match kind {
+                0 => { cap = collected; Coll::Fub(it.collect()) }
+                1 => Coll::Fu(it.collect()),
+                2 => { cap = collected; Coll::Fob(it.collect()) }
+                _ => Coll::Fo(it.collect()),
+            }
+        } else {
+            match kind {
+                0 => Coll::Fub(FuturesUnorderedBounded::new(cap)),
+                1 => Coll::Fu(FuturesUnordered::with_capacity(cap)),
+                2 => Coll::Fob(FuturesOrderedBounded::new(cap)),
+                _ => Coll::Fo(FuturesOrdered::with_capacity(cap)),
+            }
         };
         if it % 50 == 0 {
             // zero capacity constructors (C15)
@@ -355,15 +381,10 @@ fn run_collections(prop: &'static str, seed: u64, iters: usize) {
         let tw = Arc::new(CountWaker(AtomicUsize::new(0)));
         let waker = Waker::from(tw.clone());
         let mut cx = Context::from_waker(&waker);
-        let mut hist: Vec<String> = vec![];
-        let mut children: Vec<St> = vec![];
-        // model: deque of ids for ordered, set for unordered
-        let mut model: VecDeque<usize> = VecDeque::new();
         let mut yielded: Vec<usize> = vec![];
         let mut wakes_total = 0usize;
-        let mut pushes = 0usize;
         let steps = 4 + rng.below(14);
-        let fail = |hist: &Vec<String>, what: String| -> ! { report(&Fail { prop, scenario: scenario.clone(), history: hist.clone(), what }) };
+        let fail = |props: &[&str], hist: &Vec<String>, what: String| { if props.contains(&prop) { report(&Fail { prop, scenario: scenario.clone(), history: hist.clone(), what }) } };
         for _ in 0..steps {
             match rng.below(10) {
                 0 | 1 | 2 => {
@@ -386,25 +407,25 @@ fn run_collections(prop: &'static str, seed: u64, iters: usize) {
                         Ok(()) => {
                             pushes += 1;
                             if bounded && running >= cap {
-                                fail(&hist, format!("push accepted although {running} futures are running in a collection of capacity {cap}"));
+                                fail(&["C15","C09"], &hist, format!("push accepted although {running} futures are running in a collection of capacity {cap}"));
                             }
                             if front { model.push_front(id) } else { model.push_back(id) }
                             if coll.len() != before_len + 1 {
-                                fail(&hist, format!("len {} after accepted push, expected {}", coll.len(), before_len + 1));
+                                fail(&["C15"], &hist, format!("len {} after accepted push, expected {}", coll.len(), before_len + 1));
                             }
                         }
                         Err(f) => {
                             if !bounded || running < cap {
-                                fail(&hist, format!("push refused although only {running} of {cap} futures are running"));
+                                fail(&["C15"], &hist, format!("push refused although only {running} of {cap} futures are running"));
                             }
                             if f.id != id {
-                                fail(&hist, "try_push returned a different future".into());
+                                fail(&["C15","C06"], &hist, "try_push returned a different future".into());
                             }
                             drop(f);
                             st.dropped.set(0); // the refused future was dropped by us
                             children.pop();
                             if coll.len() != before_len {
-                                fail(&hist, "len changed by a refused push".into());
+                                fail(&["C15"], &hist, "len changed by a refused push".into());
                             }
                         }
                     }
@@ -419,16 +440,16 @@ fn run_collections(prop: &'static str, seed: u64, iters: usize) {
                         Poll::Ready(Some(o)) => {
                             hist.push(format!("poll -> Some({})", o.id));
                             if yielded.contains(&o.id) {
-                                fail(&hist, format!("output {} yielded twice", o.id));
+                                fail(&["C02","C10"], &hist, format!("output {} yielded twice", o.id));
                             }
                             if !model.contains(&o.id) {
-                                fail(&hist, format!("output {} was never accepted / already yielded", o.id));
+                                fail(&["C02"], &hist, format!("output {} was never accepted / already yielded", o.id));
                             }
                             if coll.ordered() && model.front() != Some(&o.id) {
-                                fail(&hist, format!("ordered collection yielded {} but the head of the queue is {:?}", o.id, model.front()));
+                                fail(&["C04"], &hist, format!("ordered collection yielded {} but the head of the queue is {:?}", o.id, model.front()));
                             }
                             if children[o.id].dropped.get() != 1 {
-                                fail(&hist, format!("future {} not dropped when its output was handed out (drops={})", o.id, children[o.id].dropped.get()));
+                                fail(&["C05"], &hist, format!("future {} not dropped when its output was handed out (drops={})", o.id, children[o.id].dropped.get()));
                             }
                             model.retain(|i| *i != o.id);
                             yielded.push(o.id);
@@ -436,13 +457,13 @@ fn run_collections(prop: &'static str, seed: u64, iters: usize) {
                         Poll::Ready(None) => {
                             hist.push("poll -> None".into());
                             if !model.is_empty() {
-                                fail(&hist, format!("Ready(None) while {} futures/outputs are still held", model.len()));
+                                fail(&["C02"], &hist, format!("Ready(None) while {} futures/outputs are still held", model.len()));
                             }
                         }
                         Poll::Pending => {
                             hist.push(format!("poll -> Pending (task wakes {})", after - before));
                             if model.is_empty() {
-                                fail(&hist, "Pending although the collection is empty".into());
+                                fail(&["C02"], &hist, "Pending although the collection is empty".into());
                             }
                             // C01: a held child that is ready-and-woken / never polled must not be left behind silently
                             let missed: Vec<usize> = model.iter().copied().filter(|i| {
@@ -450,20 +471,20 @@ fn run_collections(prop: &'static str, seed: u64, iters: usize) {
                                 !c.done.get() && (c.polls.get() == 0 || c.woken_since_poll.get())
                             }).collect();
                             if !missed.is_empty() && after == before {
-                                fail(&hist, format!("Pending with children {:?} pushed/woken but not polled and the task waker not invoked", missed));
+                                fail(&["C01"], &hist, format!("Pending with children {:?} pushed/woken but not polled and the task waker not invoked", missed));
                             }
                             // ordered: head ready & woken must not be parked silently
                         }
                     }
                     if child_polls > 61 * 40 {
-                        fail(&hist, format!("{child_polls} child polls in one poll call"));
+                        fail(&["C13"], &hist, format!("{child_polls} child polls in one poll call"));
                     }
                     for (i, c) in children.iter().enumerate() {
                         if c.polled_after_done.get() {
-                            fail(&hist, format!("future {i} polled again after it returned Ready"));
+                            fail(&["C05"], &hist, format!("future {i} polled again after it returned Ready"));
                         }
                         if c.moved.get() {
-                            fail(&hist, format!("future {i} observed at two different addresses"));
+                            fail(&["C08"], &hist, format!("future {i} observed at two different addresses"));
                         }
                     }
                     let _ = wakes_total;
@@ -496,17 +517,17 @@ fn run_collections(prop: &'static str, seed: u64, iters: usize) {
             // observers (C15 / C17)
             let expect = model.len();
             if coll.len() != expect || coll.is_empty() != (expect == 0) {
-                fail(&hist, format!("len()={} is_empty()={} but {} entries are held", coll.len(), coll.is_empty(), expect));
+                fail(&["C15"], &hist, format!("len()={} is_empty()={} but {} entries are held", coll.len(), coll.is_empty(), expect));
             }
             let (lo, hi) = coll.size_hint();
             if lo > expect || hi.map(|h| h < expect).unwrap_or(false) {
-                fail(&hist, format!("size_hint ({lo},{hi:?}) does not bracket {expect}"));
+                fail(&["C17","C15"], &hist, format!("size_hint ({lo},{hi:?}) does not bracket {expect}"));
             }
             // C12: total child polls <= pushes + wakes (+ self wakes counted as wakes)
             let total_polls: usize = children.iter().map(|c| c.polls.get()).sum();
             let self_wakes: usize = children.iter().filter(|c| c.self_wake.get()).map(|c| c.polls.get()).sum();
             if total_polls > pushes + wakes_total + self_wakes {
-                fail(&hist, format!("{total_polls} child polls but only {pushes} pushes + {wakes_total} wakes (+{self_wakes} self wakes)"));
+                fail(&["C12"], &hist, format!("{total_polls} child polls but only {pushes} pushes + {wakes_total} wakes (+{self_wakes} self wakes)"));
             }
         }
         // quiesce (C14): no child wakes any more -> within held+2 polls a Pending without task wake
@@ -526,13 +547,13 @@ fn run_collections(prop: &'static str, seed: u64, iters: usize) {
                 }
                 Poll::Ready(Some(o)) => {
                     if coll.ordered() && model.front() != Some(&o.id) {
-                        fail(&hist, format!("ordered collection yielded {} but the head of the queue is {:?}", o.id, model.front()));
+                        fail(&["C04"], &hist, format!("ordered collection yielded {} but the head of the queue is {:?}", o.id, model.front()));
                     }
                     model.retain(|i| *i != o.id);
                 }
                 Poll::Ready(None) => {
                     if !model.is_empty() {
-                        fail(&hist, format!("Ready(None) while {} entries are held", model.len()));
+                        fail(&["C02"], &hist, format!("Ready(None) while {} entries are held", model.len()));
                     }
                     quiet = true;
                     break;
@@ -541,7 +562,7 @@ fn run_collections(prop: &'static str, seed: u64, iters: usize) {
         }
         if !quiet {
             hist.push("(quiesce)".into());
-            fail(&hist, "the task keeps being woken although no child wakes".into());
+            fail(&["C14"], &hist, "the task keeps being woken although no child wakes".into());
         }
         // drain: complete everything, everything must come out exactly once, in order
         for c in &children {
@@ -553,22 +574,24 @@ fn run_collections(prop: &'static str, seed: u64, iters: usize) {
             guard += 1;
             if guard > 10_000 {
                 hist.push("(drain)".into());
-                fail(&hist, format!("outputs {:?} never yielded although every future is ready and woken", model));
+                fail(&["C02","C01"], &hist, format!("outputs {:?} never yielded although every future is ready and woken", model));
+                break;
             }
             match coll.poll(&mut cx) {
                 Poll::Ready(Some(o)) => {
                     if coll.ordered() && model.front() != Some(&o.id) {
                         hist.push("(drain)".into());
-                        fail(&hist, format!("ordered collection yielded {} but the head of the queue is {:?}", o.id, model.front()));
+                        fail(&["C04"], &hist, format!("ordered collection yielded {} but the head of the queue is {:?}", o.id, model.front()));
                     }
                     if !model.contains(&o.id) {
-                        fail(&hist, format!("output {} yielded twice / never accepted", o.id));
+                        fail(&["C02","C10"], &hist, format!("output {} yielded twice / never accepted", o.id));
                     }
                     model.retain(|i| *i != o.id);
                 }
                 Poll::Ready(None) => {
                     hist.push("(drain)".into());
-                    fail(&hist, format!("Ready(None) while {:?} are still held", model));
+                    fail(&["C02"], &hist, format!("Ready(None) while {:?} are still held", model));
+                    break;
                 }
                 Poll::Pending => {}
             }
@@ -577,10 +600,10 @@ fn run_collections(prop: &'static str, seed: u64, iters: usize) {
         for (i, c) in children.iter().enumerate() {
             if c.dropped.get() != 1 {
                 hist.push("(drop collection)".into());
-                fail(&hist, format!("future {i} dropped {} times", c.dropped.get()));
+                fail(&["C06"], &hist, format!("future {i} dropped {} times", c.dropped.get()));
             }
             if c.done.get() && c.out_dropped.get() != 1 {
-                fail(&hist, format!("output {i} dropped {} times", c.out_dropped.get()));
+                fail(&["C06"], &hist, format!("output {i} dropped {} times", c.out_dropped.get()));
             }
         }
     }
@@ -605,7 +628,7 @@ fn run_adapters(prop: &'static str, seed: u64, iters: usize) {
         let waker = Waker::from(tw.clone());
         let mut cx = Context::from_waker(&waker);
         let mut hist: Vec<String> = vec![];
-        let fail = |hist: &Vec<String>, what: String| -> ! { report(&Fail { prop, scenario: scenario.clone(), history: hist.clone(), what }) };
+        let fail = |props: &[&str], hist: &Vec<String>, what: String| { if props.contains(&prop) { report(&Fail { prop, scenario: scenario.clone(), history: hist.clone(), what }) } };
         // build
         type BoxS = Pin<Box<dyn Stream<Item = Result<usize, usize>>>>;
         let called = Rc::new(Cell::new(0usize));
@@ -659,20 +682,20 @@ fn run_adapters(prop: &'static str, seed: u64, iters: usize) {
                         Poll::Ready(Some(Ok(id))) | Poll::Ready(Some(Err(id))) => {
                             hist.push(format!("poll -> item {id}"));
                             if yielded.contains(&id) {
-                                fail(&hist, format!("item {id} yielded twice"));
+                                fail(&["C02","C10"], &hist, format!("item {id} yielded twice"));
                             }
                             if ordered && id != yielded.len() {
-                                fail(&hist, format!("ordered adapter yielded item {id}, expected {}", yielded.len()));
+                                fail(&["C04"], &hist, format!("ordered adapter yielded item {id}, expected {}", yielded.len()));
                             }
                             yielded.push(id);
                         }
                         Poll::Ready(None) => {
                             hist.push("poll -> None".into());
                             if !ust.ended.get() || which != 4 && yielded.len() != cs.len() {
-                                fail(&hist, format!("None although upstream ended={} and {} of {} pulled items were yielded", ust.ended.get(), yielded.len(), cs.len()));
+                                fail(&["C10"], &hist, format!("None although upstream ended={} and {} of {} pulled items were yielded", ust.ended.get(), yielded.len(), cs.len()));
                             }
                             if which == 4 && (cs.iter().any(|c| !c.done.get()) || called.get() != cs.len()) {
-                                fail(&hist, "for_each_concurrent completed with futures unfinished / items not passed to f".into());
+                                fail(&["C10"], &hist, "for_each_concurrent completed with futures unfinished / items not passed to f".into());
                             }
                             finished = true;
                         }
@@ -681,32 +704,32 @@ fn run_adapters(prop: &'static str, seed: u64, iters: usize) {
                             let undelivered = if which == 4 { in_flight } else { pulled_not_yielded };
                             let up_pending_now = ust.polls.get() > polls_before && ust.last_pending.get();
                             if !(undelivered >= n || ust.ended.get() || up_pending_now) {
-                                fail(&hist, format!("Pending with {undelivered} < {n} items unfinished/undelivered, upstream not ended and not polled-Pending in this call"));
+                                fail(&["C09"], &hist, format!("Pending with {undelivered} < {n} items unfinished/undelivered, upstream not ended and not polled-Pending in this call"));
                             }
                             if ust.ended.get() && undelivered == 0 {
-                                fail(&hist, "Pending although upstream is exhausted and nothing is in flight".into());
+                                fail(&["C10"], &hist, "Pending although upstream is exhausted and nothing is in flight".into());
                             }
                         }
                     }
                     if in_flight > n {
-                        fail(&hist, format!("{in_flight} unfinished futures held, limit {n}"));
+                        fail(&["C09"], &hist, format!("{in_flight} unfinished futures held, limit {n}"));
                     }
                     if ordered && pulled_not_yielded > n {
-                        fail(&hist, format!("{pulled_not_yielded} items pulled but not yielded, limit {n}"));
+                        fail(&["C16"], &hist, format!("{pulled_not_yielded} items pulled but not yielded, limit {n}"));
                     }
                     if ust.polled_after_end.get() {
-                        fail(&hist, "upstream polled again after it returned None".into());
+                        fail(&["C10","C05"], &hist, "upstream polled again after it returned None".into());
                     }
                     if which != 4 && !finished {
                         let remaining = ust.honest_remaining.get() + (cs.len() - yielded.len());
                         let (lo, hi) = s.size_hint();
                         if lo > remaining || hi.map(|h| h < remaining).unwrap_or(false) {
-                            fail(&hist, format!("size_hint ({lo},{hi:?}) does not bracket the {remaining} items still to come"));
+                            fail(&["C17"], &hist, format!("size_hint ({lo},{hi:?}) does not bracket the {remaining} items still to come"));
                         }
                     }
                     for (i, c) in cs.iter().enumerate() {
                         if c.polled_after_done.get() {
-                            fail(&hist, format!("future {i} polled after completion"));
+                            fail(&["C05"], &hist, format!("future {i} polled after completion"));
                         }
                     }
                 }
@@ -719,7 +742,7 @@ fn run_adapters(prop: &'static str, seed: u64, iters: usize) {
         for (i, c) in ust.children.borrow().iter().enumerate() {
             if c.dropped.get() != 1 {
                 hist.push("(drop adapter)".into());
-                fail(&hist, format!("future {i} dropped {} times", c.dropped.get()));
+                fail(&["C06"], &hist, format!("future {i} dropped {} times", c.dropped.get()));
             }
         }
     }
@@ -780,7 +803,7 @@ fn run_join(prop: &'static str, seed: u64, iters: usize) {
         let waker = Waker::from(tw.clone());
         let mut cx = Context::from_waker(&waker);
         let mut hist: Vec<String> = vec![];
-        let fail = |hist: &Vec<String>, what: String| -> ! { report(&Fail { prop, scenario: scenario.clone(), history: hist.clone(), what }) };
+        let fail = |props: &[&str], hist: &Vec<String>, what: String| { if props.contains(&prop) { report(&Fail { prop, scenario: scenario.clone(), history: hist.clone(), what }) } };
         let children: Vec<St> = (0..n).map(|_| Rc::new(ChildSt::default())).collect();
         for c in &children {
             if rng.below(3) == 0 {
@@ -826,23 +849,23 @@ fn run_join(prop: &'static str, seed: u64, iters: usize) {
                             results_after_ready += 1;
                             if results_after_ready == 1 {
                                 if v != (0..n).collect::<Vec<_>>() {
-                                    fail(&hist, format!("resolved to {v:?}, expected the outputs of inputs 0..{n} in order"));
+                                    fail(&["C07","C04"], &hist, format!("resolved to {v:?}, expected the outputs of inputs 0..{n} in order"));
                                 }
                                 if children.iter().any(|c| !c.done.get()) {
-                                    fail(&hist, "resolved before every input resolved".into());
+                                    fail(&["C07"], &hist, "resolved before every input resolved".into());
                                 }
                                 if try_variant && children.iter().any(|c| c.err.get()) {
-                                    fail(&hist, "resolved to Ok although an input failed".into());
+                                    fail(&["C07"], &hist, "resolved to Ok although an input failed".into());
                                 }
                             } else if !v.is_empty() {
-                                fail(&hist, format!("polled again after completion: handed out {v:?}"));
+                                fail(&["C07"], &hist, format!("polled again after completion: handed out {v:?}"));
                             }
                         }
                         Poll::Ready(Err(e)) => {
                             hist.push(format!("poll -> Err({e})"));
                             results_after_ready += 1;
                             if !(e < n && children[e].err.get() && children[e].done.get()) {
-                                fail(&hist, format!("Err({e}) is not the error of a failed input"));
+                                fail(&["C07"], &hist, format!("Err({e}) is not the error of a failed input"));
                             }
                         }
                         Poll::Pending => {
@@ -853,11 +876,11 @@ fn run_join(prop: &'static str, seed: u64, iters: usize) {
                         }
                     }
                     if prop == "C18" && a1 != a0 {
-                        fail(&hist, format!("{} heap allocation(s) during poll", a1 - a0));
+                        fail(&["C18"], &hist, format!("{} heap allocation(s) during poll", a1 - a0));
                     }
                     for (i, c) in children.iter().enumerate() {
                         if c.polled_after_done.get() {
-                            fail(&hist, format!("input {i} polled after completion"));
+                            fail(&["C05"], &hist, format!("input {i} polled after completion"));
                         }
                     }
                 }
@@ -868,10 +891,10 @@ fn run_join(prop: &'static str, seed: u64, iters: usize) {
         hist.push("drop".into());
         for (i, c) in children.iter().enumerate() {
             if c.dropped.get() != 1 {
-                fail(&hist, format!("input future {i} dropped {} times", c.dropped.get()));
+                fail(&["C06"], &hist, format!("input future {i} dropped {} times", c.dropped.get()));
             }
             if c.done.get() && !c.err.get() && c.out_dropped.get() != 1 {
-                fail(&hist, format!("output of input {i} dropped {} times", c.out_dropped.get()));
+                fail(&["C06"], &hist, format!("output of input {i} dropped {} times", c.out_dropped.get()));
             }
         }
     }
@@ -962,7 +985,7 @@ fn run_merge(prop: &'static str, seed: u64, iters: usize) {
                 }
             }
         }
-        if !seen {
+        if !seen && prop == "C13" {
             report(&Fail { prop, scenario: "MergeUnbounded: source 0 always ready, 1..31 pending (group 0), source 32 ready (group 1)".into(), history: vec!["109 polls".into()], what: "source 32 was never polled: a permanently ready source in an earlier group starves it".into() });
         }
     }
@@ -971,7 +994,7 @@ fn run_merge(prop: &'static str, seed: u64, iters: usize) {
         let nsrc = 1 + rng.below(4);
         let scenario = format!("{}({nsrc} sources)", if unbounded { "MergeUnbounded" } else { "MergeBounded" });
         let mut hist: Vec<String> = vec![];
-        let fail = |hist: &Vec<String>, what: String| -> ! { report(&Fail { prop, scenario: scenario.clone(), history: hist.clone(), what }) };
+        let fail = |props: &[&str], hist: &Vec<String>, what: String| { if props.contains(&prop) { report(&Fail { prop, scenario: scenario.clone(), history: hist.clone(), what }) } };
         let mut sts: Vec<Rc<SrcSt>> = vec![];
         let mut srcs = vec![];
         for i in 0..nsrc {
@@ -1008,14 +1031,14 @@ fn run_merge(prop: &'static str, seed: u64, iters: usize) {
                 Poll::Ready(Some((id, seq))) => {
                     hist.push(format!("poll -> item {seq} of source {id}"));
                     if seq != next_seq[id] {
-                        fail(&hist, format!("source {id}: item {seq} yielded, expected item {} (dropped / duplicated / reordered)", next_seq[id]));
+                        fail(&["C11"], &hist, format!("source {id}: item {seq} yielded, expected item {} (dropped / duplicated / reordered)", next_seq[id]));
                     }
                     next_seq[id] += 1;
                 }
                 Poll::Ready(None) => {
                     hist.push("poll -> None".into());
                     if sts.iter().any(|s| !s.ended.get()) {
-                        fail(&hist, "None although a source has not ended".into());
+                        fail(&["C11"], &hist, "None although a source has not ended".into());
                     }
                     done = true;
                     break;
@@ -1023,20 +1046,20 @@ fn run_merge(prop: &'static str, seed: u64, iters: usize) {
                 Poll::Pending => {
                     hist.push("poll -> Pending".into());
                     if sts.iter().all(|s| s.ended.get()) {
-                        fail(&hist, "Pending although every source has ended".into());
+                        fail(&["C11"], &hist, "Pending although every source has ended".into());
                     }
                     let _ = before;
                 }
             }
             for (i, s) in sts.iter().enumerate() {
                 if s.polled_after_end.get() {
-                    fail(&hist, format!("source {i} polled again after it returned None"));
+                    fail(&["C05","C11"], &hist, format!("source {i} polled again after it returned None"));
                 }
                 if s.ended.get() && s.dropped.get() != 1 {
-                    fail(&hist, format!("ended source {i} not dropped by the time its None was observed (drops={})", s.dropped.get()));
+                    fail(&["C05"], &hist, format!("ended source {i} not dropped by the time its None was observed (drops={})", s.dropped.get()));
                 }
                 if next_seq[i] != s.seq.get() {
-                    fail(&hist, format!("source {i} produced {} items but {} were yielded", s.seq.get(), next_seq[i]));
+                    fail(&["C11"], &hist, format!("source {i} produced {} items but {} were yielded", s.seq.get(), next_seq[i]));
                 }
             }
         }
@@ -1044,7 +1067,7 @@ fn run_merge(prop: &'static str, seed: u64, iters: usize) {
         drop(m);
         for (i, s) in sts.iter().enumerate() {
             if s.dropped.get() != 1 {
-                fail(&hist, format!("source {i} dropped {} times", s.dropped.get()));
+                fail(&["C06"], &hist, format!("source {i} dropped {} times", s.dropped.get()));
             }
         }
     }
